@@ -5,6 +5,7 @@ package interp
 import (
 	"fmt"
 	"go/types"
+	"os"
 	"runtime"
 	"sort"
 	"strings"
@@ -22,6 +23,9 @@ func (e engineError) Error() string { return "engine: " + e.msg }
 
 // pathAbort ends a path normally (infeasible assumption, end of harness ...).
 type pathAbort struct{ status string }
+
+var debugStacks = os.Getenv("VERIF_DEBUG_STACKS") != ""
+var debugPaths = os.Getenv("VERIF_DEBUG_PATHS") != ""
 
 // killPanic unwinds a parked goroutine at the end of a path.
 type killPanic struct{}
@@ -82,6 +86,7 @@ type Explorer struct {
 	Workers int
 	Solver  string
 	Timeout int // ms per query
+	FastTimeout int // ms for the first attempt of the primary back end
 
 	mu        sync.Mutex
 	cond      *sync.Cond
@@ -149,18 +154,19 @@ type Worker struct {
 	solver *Solver
 	funcs  map[*ssa.Function]int
 	nvar   int
+	fpabs  map[int]*fpAbs
 }
 
 func (ex *Explorer) worker(id int) {
 	w := &Worker{ex: ex, ts: NewTermStore(), funcs: map[*ssa.Function]int{}}
-	s, err := NewSolver(ex.Solver, w.ts, ex.Timeout)
+	s, err := NewSolverFast(ex.Solver, w.ts, ex.Timeout, ex.FastTimeout)
 	if err != nil {
 		ex.inconclusive("solver start: " + err.Error())
 		return
 	}
 	w.solver = s
 	switch ex.Solver {
-	case "cvc5-int":
+	case "cvc5-int", "cvc5":
 		s.AltKind = "z3"
 	default:
 		s.AltKind = "cvc5-int"
@@ -191,6 +197,9 @@ func (ex *Explorer) worker(id int) {
 		ex.mu.Unlock()
 
 		res := w.runPath(prefix)
+		if debugPaths {
+			fmt.Fprintf(os.Stderr, "path %v -> %s (%d decisions, %d steps, %d asserts)\n", prefix, res.Status, len(res.Decs), res.Steps, res.Asserts)
+		}
 
 		ex.mu.Lock()
 		ex.active--
@@ -348,9 +357,12 @@ func (i *interpreter) classifyPanic(r any) string {
 			i.recordPanic("runtime error: " + msg)
 			return "panic"
 		}
-		buf := make([]byte, 4096)
-		n := runtime.Stack(buf, false)
-		return "engine: " + msg + " @ " + i.where() + "\n" + string(buf[:n])
+		if debugStacks {
+			buf := make([]byte, 8192)
+			n := runtime.Stack(buf, false)
+			fmt.Fprintln(os.Stderr, string(buf[:n]))
+		}
+		return "engine: " + msg + " @ " + i.where()
 	case string:
 		if strings.HasPrefix(r, "interface conversion") || strings.Contains(r, "nil interface") ||
 			strings.HasPrefix(r, "value method") || strings.Contains(r, "negative shift") ||
